@@ -31,6 +31,8 @@ EARLY = '~ id: early ~ $[0-1][push("s", #3)]'  # a member whose scan ends at rec
 KINDS = {
     "argtype": ("@e = add(#1, 1)", ["g", "1", "1"], ["b", "x", "1"]),
     "pyexc": ("@e = mod(#1, #2)", ["g", "4", "2"], ["b", "4", "0"]),
+    # a failure outside the match components: the collect() projection names a header the short row does not have
+    "project": ("collect(2) yes()", ["g", "4", "2"], ["b"]),
 }
 
 
@@ -56,6 +58,8 @@ def cases(tier, seed):
                                 for follow in ("same", "cross"):
                                     if via.startswith("config-") and (kind != "argtype" or follow != "same"):
                                         continue  # the two wider policies: one error kind, one follow-up
+                                    if kind == "project" and m == "fast_forward_by_line":
+                                        continue  # a breadth-first run that does not collect never applies the projection: nothing aborts
                                     yield {"gsize": gsize, "abidx": abidx, "kind": kind, "via": via, "n": n, "pos": pos, "method": m, "follow": follow}
 
 
